@@ -575,6 +575,13 @@ func (r *resolver) injectDerivedFrom(ctx context.Context, node *treeNode, v reso
 		return fmt.Errorf("cannot get bundled content: %w", err)
 	}
 	for _, bv := range bvs {
+		// A bundle cannot contain itself; the data is malformed if a derived
+		// version shows up again among its own ancestors.
+		for a := node; a != nil; a = a.parent {
+			if a.bundled != nil && a.bundled.Version.VersionKey == bv.Version.VersionKey {
+				return fmt.Errorf("bundled version %v contains itself", bv.Version.VersionKey)
+			}
+		}
 		cn, err := r.newTreeNode(ctx, bv.Version)
 		if err != nil {
 			return fmt.Errorf("cannot create tree node for %v: %w", bv, err)
